@@ -1,7 +1,7 @@
 """C15 - sorting and searching helpers order correctly, stably where promised (DESIGN.md section 7-C15)."""
 from ..core import *
 
-CLAUSES = ["I_NoPanic", "I_Perm", "I_Order", "I_Stable", "I_Search", "I_ShuffleDet"]
+CLAUSES = ["I_NoPanic", "I_Perm", "I_Order", "I_Stable", "I_Search", "I_ShuffleDet", "I_Big"]
 SORTS = ["Sort", "SortDesc", "SortFunc", "SortDescFunc", "SortStableFunc", "SortStableDescFunc"]
 
 
@@ -68,6 +68,24 @@ def check(run):
         for t in sorted(ts):
             for op in ("BinarySearch", "BinarySearchFunc"):
                 plans.append([dict(op=op, s=vals, t=t, d=10)])
+    # other ordered element types (8-bit integers with the type's minimum and maximum, floats, strings), lengths past 128 / 256
+    for ty in ("int8", "uint8", "float64", "string"):
+        for n in ((5, 130, 300) if run.quick() else (5, 64, 127, 128, 129, 130, 256, 257, 300, 700)):
+            for shape in ("rand", "few", "ext"):
+                if shape == "rand":
+                    sv = [run.rng.randint(0, 255) for _ in range(n)]
+                elif shape == "few":
+                    sv = [run.rng.choice([0, 1, 128, 255]) for _ in range(n)]
+                else:
+                    sv = [0, 255] * (n // 2) + [0] * (n % 2)
+                for op in ("Sort", "SortDesc"):
+                    plans.append([dict(op=op, s=sv, t=0, d=10, ty=ty)])
+                plans.append([dict(op="BinarySearch", s=sorted(sv), t=run.rng.choice([0, 1, 128, 255, 77]), d=10, ty=ty)])
+    # thousands of elements, given by a formula and checked through a lossless run encoding of the result
+    for n in ((2049, 2051, 4099) if run.quick() else (1025, 2048, 2049, 2050, 2051, 4099, 8191, 10007, 20001)):
+        for (a, b, m) in ((3, 1, 7), (1, 0, 3)) if run.quick() else ((3, 1, 7), (1, 0, 3), (5, 2, 11), (2, 0, 5)):
+            for v in SORTS:
+                plans.append([dict(op="BigSort", variant=v, n=n, a=a, b=b, m=m, d=32768, s=[], t=0)])
     for j in range(20 if run.quick() else 300):
         n = run.rng.randint(0, 60)
         s = sorted(run.rng.randint(1, 30) for _ in range(n))
@@ -90,7 +108,7 @@ def check(run):
     conf = conformance(pl2, segs, ["res", "ri"])
     validate(run, "slices", "SortAbsTrace", {}, segs, CLAUSES, plans=plans)
     run.cov.update(conformance=conf, exhaustive=True,
-                   distinct_nontrivial=distinct_count(segs, lambda s: len(s[0]["s"]) > 1),
+                   distinct_nontrivial=distinct_count(segs, lambda s: len(s[0].get("s", [0, 0])) > 1),
                    rule="one case per (variant, key sequence over {1,2,3} up to length %d with position tags) and per (ascending slice over "
                         "1..4 up to length %d, target 0..5) enumerated by TLC from SortSearch.tla, plus seeded inputs of length 7..120 "
                         "(past Go's insertion-sort and stable-block thresholds), structured sort inputs (sorted, reversed, sorted head + short tail, "
